@@ -166,6 +166,17 @@ class StreamItemValue(NamedTuple):
     errors: list[GraphQLError] | None = None
 
 
+class StreamItemQueues(list["StreamItemQueue"]):
+    """The stream item queues created during an execution.
+
+    When the execution has been stopped, the list is marked as closed, so that
+    queues created afterwards (by work that is settled in the background) can
+    be aborted right away, since nobody would deliver or abort them any more.
+    """
+
+    closed: bool = False
+
+
 class IncrementalExecutor(Executor[DeliveryGroupMap]):
     """Executor supporting incremental delivery via ``@defer`` and ``@stream``.
 
@@ -197,7 +208,7 @@ class IncrementalExecutor(Executor[DeliveryGroupMap]):
         # All stream item queues created during the execution, shared with all
         # sub-executors, so that they can be aborted when the execution stops,
         # even if they are nested in results that never reached the scheduler
-        self._stream_item_queues: list[StreamItemQueue] = []
+        self._stream_item_queues = StreamItemQueues()
 
     def create_sub_executor(
         self, defer_usage_set: DeferUsageSet | None = None
@@ -254,7 +265,9 @@ class IncrementalExecutor(Executor[DeliveryGroupMap]):
         await super().cancel_incremental_work(reason)
         awaitables: list[Any] = []
         is_awaitable = self.is_awaitable
-        for queue in self._stream_item_queues:
+        stream_item_queues = self._stream_item_queues
+        stream_item_queues.closed = True
+        for queue in stream_item_queues:
             abort_result = queue.abort(reason)
             if is_awaitable(abort_result):
                 awaitables.append(abort_result)
@@ -285,7 +298,9 @@ class IncrementalExecutor(Executor[DeliveryGroupMap]):
             # nothing is delivered incrementally, so streams that have been
             # created by work that failed or is settled in the background
             # would never be cleaned up by an incremental publisher
-            for queue in self._stream_item_queues:
+            stream_item_queues = self._stream_item_queues
+            stream_item_queues.closed = True
+            for queue in stream_item_queues:
                 self.settle_abort_result(queue.abort())
             return super().build_response(data)
 
@@ -741,7 +756,12 @@ class IncrementalExecutor(Executor[DeliveryGroupMap]):
             return None
 
         queue = StreamItemQueue(produce, on_abort, eager=enable_early_execution)
-        self._stream_item_queues.append(queue)
+        stream_item_queues = self._stream_item_queues
+        stream_item_queues.append(queue)
+        if stream_item_queues.closed:
+            # created by work settled in the background after the execution
+            # has been stopped, nobody would deliver or abort it any more
+            self.settle_abort_result(queue.abort())
         return queue
 
     def complete_stream_item(
